@@ -188,7 +188,14 @@ static void enc_run(int Fs, int ch, int app, const vop *ops, int nops, vrng *r)
          if (n > 0) gen_pcm(r, pcm, o->fsz, ch, o->sig);
          printf(" E%d:%d", o->fsz, o->bytes); fflush(stdout);
          ret = opus_encode(st, pcm, o->fsz, out, o->bytes > 8000 ? 8000 : o->bytes);
-         printf(":%d:", ret < 0 ? ret : ret); enc_obs(stdout, st); fflush(stdout);
+         printf(":%d:", ret < 0 ? ret : ret); enc_obs(stdout, st);
+         {  /* what went on the wire: TOC, coded payload bytes (0 = DTX / TOC-only packet), frame count */
+            int toc = 0, payload = 0, nfr = 0;
+            if (ret > 0) { opus_int16 sz[48]; int k; unsigned char t; nfr = opus_packet_parse(out, ret, &t, NULL, sz, NULL);
+                           toc = out[0]; for (k = 0; k < nfr; k++) payload += sz[k]; }
+            printf(":%d:%d:%d", toc, payload, nfr);
+         }
+         fflush(stdout);
          free(pcm);
          oprintf("enc/"); enc_snap(st); oprintf(" ");
          continue; }
@@ -643,6 +650,39 @@ static void run_chain(uint64_t seed, long cases)
    }
 }
 
+/* histories in which the application is (re)selected after OPUS_RESET_STATE: [settings, encode x k, RESET_STATE,
+   SET_APPLICATION, encode x m].  After a reset the encoder is before its first frame again, so the new application must
+   bind every following packet (a stale run-time field surviving the reset shows up in the first packet). */
+static void run_reapp(uint64_t seed, long cases)
+{
+   vrng r; long cidx; static vop ops[256];
+   r.s = seed * 0xC2B2AE3D27D4EB4FULL + 17;
+   for (cidx = 0; cidx < cases; cidx++) {
+      int Fs = FSS[vbelow(&r, 5)], ch = vrange(&r, 1, 2), app = APPS[vbelow(&r, 3)], n = 0, i, k, m;
+      static const int num[6] = {4, 8, 8, 8, 16, 24};
+      int fsz = Fs / 400 * num[vbelow(&r, 6)];
+      /* push the first phase towards the LP / hybrid layers most of the time */
+      if (vchance(&r, 75)) { if (app == 2051) app = 2048; OP_S(4002, ch * vrange(&r, 8000, vchance(&r, 60) ? 16000 : 40000)); OP_S(4024, 3001); }
+      else if (vchance(&r, 50)) OP_S(4002, vrange(&r, 6000, 200000));
+      if (vchance(&r, 25)) OP_S(11002, vrange(&r, 1000, 1002));
+      if (vchance(&r, 25)) OP_S(4008, vrange(&r, 1101, 1105));
+      if (vchance(&r, 20)) OP_S(4004, vrange(&r, 1101, 1105));
+      if (ch == 2 && vchance(&r, 30)) OP_S(4022, vrange(&r, 1, 2));
+      if (vchance(&r, 20)) OP_S(4010, vrange(&r, 0, 10));
+      if (vchance(&r, 15)) OP_S(4016, 1);
+      k = vrange(&r, 1, 6);
+      for (i = 0; i < k; i++) { ops[n].kind = 'E'; ops[n].fsz = fsz; ops[n].bytes = 1276; ops[n].sig = vchance(&r, 70) ? 3 : (int)vbelow(&r, 5); n++; }
+      if (vchance(&r, 85)) { ops[n].kind = 'r'; n++; }
+      OP_S(4000, vchance(&r, 70) ? 2051 : APPS[vbelow(&r, 3)]);
+      if (vchance(&r, 20)) OP_S(11002, vchance(&r, 50) ? -1000 : vrange(&r, 1000, 1002));
+      if (vchance(&r, 30)) fsz = Fs / 400 * num[vbelow(&r, 6)];
+      if (vchance(&r, 10)) fsz = Fs / 400 * (1 << vbelow(&r, 2));
+      m = vrange(&r, 1, 4);
+      for (i = 0; i < m; i++) { ops[n].kind = 'E'; ops[n].fsz = fsz; ops[n].bytes = vchance(&r, 85) ? 1276 : vrange(&r, 20, 200); ops[n].sig = vchance(&r, 70) ? 3 : (int)vbelow(&r, 5); n++; }
+      enc_run(Fs, ch, app, ops, n, &r);
+   }
+}
+
 /* ------------------------------------------------------------------ create / allocation failure */
 static void create_one(const char *kind, int Fs, int nch, int a, int b, const unsigned char *map, int app, int failk)
 {
@@ -895,6 +935,7 @@ int main(int argc, char **argv)
    make_packets();
    if (argc >= 3 && !strcmp(argv[1], "grid")) run_grid(atoi(argv[2]));
    else if (argc >= 4 && !strcmp(argv[1], "rand")) run_rand(strtoull(argv[2], 0, 10), atol(argv[3]));
+   else if (argc >= 4 && !strcmp(argv[1], "reapp")) run_reapp(strtoull(argv[2], 0, 10), atol(argv[3]));
    else if (argc >= 4 && !strcmp(argv[1], "chain")) run_chain(strtoull(argv[2], 0, 10), atol(argv[3]));
    else if (argc >= 3 && !strcmp(argv[1], "create")) run_create(atoi(argv[2]));
    else if (argc >= 2 && !strcmp(argv[1], "funcs")) run_funcs();
